@@ -308,8 +308,16 @@ def check_pair(case):
                 dmat = np.linalg.norm(poly[:, None, :] - poly2[None, :, :], axis=2)
                 hd = max(dmat.min(axis=1).max(), dmat.min(axis=0).max())
                 if hd > 1e-9 * L and not fails:
+                    # unmatched vertices and how degenerate they are: number of
+                    # (near-)zero barycentric coordinates over both tetrahedra
+                    un = [x for x, m in zip(poly, dmat.min(axis=1)) if m > 1e-9 * L] + \
+                         [x for x, m in zip(poly2, dmat.min(axis=0)) if m > 1e-9 * L]
+                    zeros = [int(np.sum(np.abs(np.concatenate([bary(t1, x), bary(t2, x)])) <= 1e-9))
+                             for x in un]
                     fails.append(fail("swap-polygon-differs/" + tag,
-                                      "polygons of (1,2) and (2,1) differ by %.3g (Hausdorff)" % hd))
+                                      "polygons of (1,2) and (2,1) differ by %.3g (Hausdorff); %d unmatched vertices" % (hd, len(un)),
+                                      unmatched_zero_counts=zeros,
+                                      sizes=[int(len(poly)), int(len(poly2))]))
                 if float(np.linalg.norm(np.asarray(plane2[:3]) + n)) > 1e-9 and not fails:
                     fails.append(fail("swap-normal/" + tag, "normal not negated when swapping"))
     else:
@@ -386,4 +394,14 @@ def check_case(case, cell):
 
 
 def match_known(f, case, known):
+    """C15-K1: a polygon vertex where three or more halfplane boundaries meet
+    (>= 3 barycentric coordinates of the two tetrahedra vanish there) is kept
+    or dropped by the absolute -EPSILON test of point_outside_of_halfplane
+    depending on rounding, i.e. on the argument order."""
+    ids = {k["id"] for k in known}
+    d = f.get("data", {})
+    if "C15-K1" in ids and f["bucket"].startswith("swap-polygon-differs/"):
+        z = d.get("unmatched_zero_counts")
+        if z and all(c >= 3 for c in z):
+            return "C15-K1"
     return None
